@@ -192,7 +192,7 @@ impl NoGoodStore {
     /// Creates a new [NoGoodStore] and assumes a size compatible with the underlying [NoGood] implementation.
     pub fn new(size: u32) -> NoGoodStore {
         Self {
-            store: vec![Vec::new(); size as usize],
+            store: vec![Vec::new(); size as usize + 1],
             duplicates: DuplicateElemination::Equiv,
         }
     }
@@ -210,28 +210,25 @@ impl NoGoodStore {
 
     /// Adds a given [NoGood]
     pub fn add_ng(&mut self, nogood: NoGood) {
-        let mut idx = nogood.len();
-        if idx > 0 {
-            idx -= 1;
-            if match self.duplicates {
-                DuplicateElemination::None => true,
-                DuplicateElemination::Equiv => !self.store[idx].contains(&nogood),
-                DuplicateElemination::Subsume => {
-                    if self.store[..=idx]
-                        .iter()
-                        .any(|ng_vec| ng_vec.iter().any(|ng| ng.is_violating(&nogood)))
-                    {
-                        false
-                    } else {
-                        self.store[idx..]
-                            .iter_mut()
-                            .for_each(|ng_vec| ng_vec.retain(|ng| !nogood.is_violating(ng)));
-                        true
-                    }
+        let idx = nogood.len();
+        if match self.duplicates {
+            DuplicateElemination::None => true,
+            DuplicateElemination::Equiv => !self.store[idx].contains(&nogood),
+            DuplicateElemination::Subsume => {
+                if self.store[..=idx]
+                    .iter()
+                    .any(|ng_vec| ng_vec.iter().any(|ng| ng.is_violating(&nogood)))
+                {
+                    false
+                } else {
+                    self.store[idx..]
+                        .iter_mut()
+                        .for_each(|ng_vec| ng_vec.retain(|ng| !nogood.is_violating(ng)));
+                    true
                 }
-            } {
-                self.store[idx].push(nogood);
             }
+        } {
+            self.store[idx].push(nogood);
         }
     }
 
@@ -243,7 +240,7 @@ impl NoGoodStore {
         self.store
             .iter()
             .enumerate()
-            .filter(|(len, _vec)| *len <= nogood.len())
+            .filter(|(len, _vec)| *len <= nogood.len() + 1)
             .filter_map(|(_len, val)| {
                 NoGood::try_from_pair_iter(&mut val.iter().filter_map(|ng| ng.conclude(nogood)))
             })
@@ -265,7 +262,7 @@ impl NoGoodStore {
             .store
             .iter()
             .enumerate()
-            .filter(|(len, _vec)| *len <= nogood.len())
+            .filter(|(len, _vec)| *len <= nogood.len() + 1)
             .any(|(_, vec)| {
                 vec.iter()
                     .any(|elem| elem.is_violating(&result) || elem.is_violating(nogood))
